@@ -566,6 +566,42 @@ def check_float_fold_overflow(idx: Index, rep: Report) -> None:
         raise AnalysisError(f"{CP}: no FloatAttr built from a computed value found")
 
 
+def check_divf_zero(idx: Index, rep: Report) -> None:
+    """x / ±0.0: the fold special-cases a zero divisor (Python raises ZeroDivisionError).  IEEE 754 gives an infinity
+    whose sign is the product of the signs of x and of the zero, and nan for 0 / 0 and nan / 0: every value assigned
+    under `rhs == 0.0` that is an infinity must depend on the sign of the divisor, and a nan numerator must give nan."""
+    from ..paths import enum_paths
+
+    r = rep.rule("C14.R12", "the divf fold for a zero divisor takes the sign of the (signed) zero into account and maps a nan numerator to nan", floor=1)
+    f = idx.func(CP, "_fold_const_operation")
+    rhs = f.node.args.args[2].arg
+    lhs = f.node.args.args[1].arg
+    n = 0
+    for pth in enum_paths(f.node):
+        if not pth.feasible():
+            continue
+        nf = pth.nfacts()
+        if (f"{rhs}.value.data == 0.0", True) not in nf or not any("DivfOp" in t_ and p_ for t_, p_ in nf):
+            continue
+        vals = [e_ for e_ in pth.effects if isinstance(e_, ast.Assign) and unparse(e_.targets[0]) == "val"]
+        if not vals:
+            continue
+        n += 1
+        v = unparse(vals[-1].value)
+        inst = f"{f.fq}:divf-zero:{v[:30]}"
+        is_inf = bool(re.search(r"inf", v))
+        sign_of_divisor = rhs in v or any(re.search(rf"copysign\([^)]*{rhs}|signbit\({rhs}|{rhs}[^=]*< 0", t_) for t_, _ in nf)
+        nan_excluded = any(re.search(rf"isnan\({lhs}\.value\.data\)", t_) for t_, _ in nf)
+        if is_inf and not sign_of_divisor:
+            r.fail(inst, Finding("C14.R12", f.fq, "signed-zero-divisor", f"under {sorted(t_ for t_, p_ in nf if p_)[:3]} the fold of x / 0.0 is `{v}`, which does not depend on the sign of the zero divisor: 1.0 / -0.0 is -inf in IEEE 754 (and in MLIR's APFloat), the fold yields +inf", f"{f.module.relpath}:{vals[-1].lineno}"))
+        elif is_inf and not nan_excluded:
+            r.fail(inst, Finding("C14.R12", f.fq, "nan-numerator", f"the fold of x / 0.0 yields `{v}` without excluding a nan numerator: nan / 0.0 is nan", f"{f.module.relpath}:{vals[-1].lineno}"))
+        else:
+            r.ok(inst, f"{f.loc} `{v[:60]}`")
+    if n == 0:
+        raise AnalysisError(f"{f.fq}: zero-divisor case of the divf fold not found")
+
+
 def check_select_patterns(idx: Index, rep: Report) -> None:
     """select %c, K1, K0 over constants may be replaced by the condition itself (i1, K1 true, K0 false) or by its zero
     extension (K1 == 1 and K0 == 0).  Truthiness of K1 is enough only for i1, where the only non-zero value is true."""
@@ -616,6 +652,7 @@ def check(idx: Index, rep: Report, tier: str) -> str:
     rep.run(check_fastmath_guards, idx, rep)
     rep.run(check_select_patterns, idx, rep)
     rep.run(check_float_fold_overflow, idx, rep)
+    rep.run(check_divf_zero, idx, rep)
     return (
         "Table-agreement and guard rules over arith's folders, the arith canonicalization patterns, constant-fold-interp, "
         "the constant-folding test pass and CSE: folded integers are truncated, fold patterns catch what the interpreter "
